@@ -76,6 +76,8 @@ type Enc struct {
 	logs      map[string]bool
 	checkSafe bool
 	axSt      *State
+	evalErrs  []string
+	evalFailed bool
 	immut     map[string]bool
 	allocs    []allocInfo
 	allocIdx  map[Term]int
@@ -589,6 +591,9 @@ func (e *Enc) execFunc(fr *Frame, st *State, reach Term) ([]Val, *State, Term) {
 			// 3. assume invariants
 			for _, inv := range invs {
 				f := e.evalBool(fr, inv.Expr, cur, fr.entry, inv)
+				if e.evalFailed {
+					continue
+				}
 				e.sc.Assert(implies(rb, f))
 			}
 		} else {
